@@ -497,6 +497,10 @@ def _load_refactors():
     allp = ['C%02d' % i for i in range(1, 21) if i != 8]
     for p in sorted(glob.glob(os.path.join(here, 'refactors', '*.diff'))):
         CASES.append({'id': 'refactor-' + os.path.basename(p)[:-5], 'props': allp, 'kind': 'benign', 'edits': [('PATCH', p)]})
+    # rewrites that replace an algorithm (recursion by iteration, a kernel by a different formula, an if chain by a table):
+    # some rule declines to read them (exit 2); none may report a violation
+    for p in sorted(glob.glob(os.path.join(here, 'refactors_deep', '*.diff'))):
+        CASES.append({'id': 'deep-' + os.path.basename(p)[:-5], 'props': allp, 'kind': 'noviolation', 'edits': [('PATCH', p)]})
 
 
 _load_refactors()
